@@ -88,4 +88,20 @@ def gen_builder(rng):
     if src not in zero_slice:
         ops += [["eval", nxt, d], ["eval", nxt + 1, d]]
     ops += [["str", nxt], ["str", nxt + 1], ["str", src]]
+    nxt += 2
+    if rng.random() < 0.3:
+        # the dash root keeps translating after every kind of step: pathd.<name>.<reserved step>.<under_score name>
+        r0 = nxt
+        ops.append(["root", r0, "pathd"])
+        cur = r0
+        nxt += 1
+        chain = ([rng.choice(NAMES)] if rng.random() < 0.5 else []) + [rng.choice(RES)] + [rng.choice(["x_y", "a_b"])]
+        if rng.random() < 0.3:
+            chain += [rng.choice(RES[:6]), rng.choice(["x_y", "a_b"])]
+        for nm in chain:
+            ops.append(["attr", nxt, cur, nm])
+            cur = nxt
+            nxt += 1
+        doc = {"a": {"x-y": 1, "a-b": {"x-y": [2]}, "x_y": 3}, "x-y": {"a-b": 4, "a_b": 5}, "k": [{"x-y": 6}], "a-b": 7, "x_y": 8}
+        ops += [["str", cur], ["eval", cur, enc(doc)], ["eval", cur, enc(gen_bdoc(rng))]]
     return {"fam": "b", "ops": ops}
